@@ -6,20 +6,6 @@ Import ListNotations.
 Open Scope string_scope.
 
 Definition expected_wraps_C01 : list string := [
-  "crypto/lm: << uint8: (_ << 1)";
-  "crypto/lm: << uint8: (_ << 1)";
-  "crypto/lm: << uint8: (_ << 2)";
-  "crypto/lm: << uint8: (_ << 2)";
-  "crypto/lm: << uint8: (_ << 3)";
-  "crypto/lm: << uint8: (_ << 3)";
-  "crypto/lm: << uint8: (_ << 4)";
-  "crypto/lm: << uint8: (_ << 4)";
-  "crypto/lm: << uint8: (_ << 5)";
-  "crypto/lm: << uint8: (_ << 5)";
-  "crypto/lm: << uint8: (_ << 6)";
-  "crypto/lm: << uint8: (_ << 6)";
-  "crypto/lm: << uint8: (_ << 7)";
-  "crypto/lm: << uint8: (_ << 7)";
   "crypto/md4: * uint64: (uint64(_) * 8)";
   "crypto/md4: + uint32: (((_ + ((_ & _) | (_ & (_ | _)))) + _) + 1518500249)";
   "crypto/md4: + uint32: (((_ + ((_ ^ _) ^ _)) + _) + 1859775393)";
@@ -42,43 +28,11 @@ Definition expected_wraps_C01 : list string := [
 ].
 
 Definition expected_wraps_C02 : list string := [
-  "crypto/ntlmv1: << uint8: (1 << (7 - _))";
-  "crypto/ntlmv1: narrow to uint8: byte(_)";
-  "network/smb/smb_v10/spnego/ntlm: << uint8: (1 << _)";
-  "network/smb/smb_v10/spnego/ntlm: << uint8: (_ << 1)";
-  "network/smb/smb_v10/spnego/ntlm: narrow to uint16: uint16(len(_))";
-  "network/smb/smb_v10/spnego/ntlm: narrow to uint16: uint16(len(_))";
-  "network/smb/smb_v10/spnego/ntlm: narrow to uint16: uint16(len(_))";
-  "network/smb/smb_v10/spnego/ntlm: narrow to uint16: uint16(len(_))";
-  "network/smb/smb_v10/spnego/ntlm: narrow to uint16: uint16(len(_))";
-  "network/smb/smb_v10/spnego/ntlm: narrow to uint16: uint16(len(_))";
-  "network/smb/smb_v10/spnego/ntlm: narrow to uint16: uint16(len(_))";
-  "network/smb/smb_v10/spnego/ntlm: narrow to uint16: uint16(len(_))";
-  "network/smb/smb_v10/spnego/ntlm: narrow to uint16: uint16(len(_))";
-  "network/smb/smb_v10/spnego/ntlm: narrow to uint16: uint16(len(_))";
-  "network/smb/smb_v10/spnego/ntlm: narrow to uint16: uint16(len(_))";
-  "network/smb/smb_v10/spnego/ntlm: narrow to uint16: uint16(len(_))";
-  "network/smb/smb_v10/spnego/ntlm: narrow to uint16: uint16(len(_))";
-  "network/smb/smb_v10/spnego/ntlm: narrow to uint16: uint16(len(_))";
-  "network/smb/smb_v10/spnego/ntlm: narrow to uint16: uint16(len(_))";
-  "network/smb/smb_v10/spnego/ntlm: narrow to uint16: uint16(len(_))";
-  "network/smb/smb_v10/spnego/ntlm: narrow to uint32: uint32(_)";
-  "network/smb/smb_v10/spnego/ntlm: narrow to uint32: uint32(_)";
-  "network/smb/smb_v10/spnego/ntlm: narrow to uint32: uint32(_)";
-  "network/smb/smb_v10/spnego/ntlm: narrow to uint32: uint32(_)";
-  "network/smb/smb_v10/spnego/ntlm: narrow to uint32: uint32(_)";
-  "network/smb/smb_v10/spnego/ntlm: narrow to uint32: uint32(_)";
-  "network/smb/smb_v10/spnego/ntlm: narrow to uint32: uint32(_)";
-  "network/smb/smb_v10/spnego/ntlm: narrow to uint32: uint32(_)"
+
 ].
 
 Definition expected_wraps_C03 : list string := [
-  "network/smb/smb_v10/message/data: narrow to uint16: uint16(len(_))";
-  "network/smb/smb_v10/message/data: narrow to uint16: uint16(len(_))";
-  "network/smb/smb_v10/message/parameters: narrow to uint16: uint16(len(_))";
-  "network/smb/smb_v10/message/parameters: narrow to uint8: uint8((len(_) * 2))";
-  "network/smb/smb_v10/message/parameters: narrow to uint8: uint8(len(_))";
-  "network/smb/smb_v10/message/parameters: narrow to uint8: uint8(len(_))"
+
 ].
 
 Definition expected_wraps_C04 : list string := [
@@ -86,187 +40,27 @@ Definition expected_wraps_C04 : list string := [
 ].
 
 Definition expected_wraps_C05 : list string := [
-  "network/smb/smb_v10/types: - uint16: (_ - 1980)";
-  "network/smb/smb_v10/types: << uint16: ((_ - 1980) << 9)";
-  "network/smb/smb_v10/types: narrow to uint16: uint16(_)";
-  "network/smb/smb_v10/types: narrow to uint16: uint16(len(_))";
-  "network/smb/smb_v10/types: narrow to uint16: uint16(len(_))";
-  "network/smb/smb_v10/types: narrow to uint16: uint16(len(_))";
-  "network/smb/smb_v10/types: narrow to uint8: uint8(_)";
-  "network/smb/smb_v10/types: narrow to uint8: uint8(_)"
+
 ].
 
 Definition expected_wraps_C06 : list string := [
-  "network/smb/smb_v10/message/data: narrow to uint16: uint16(len(_))";
-  "network/smb/smb_v10/message/data: narrow to uint16: uint16(len(_))";
-  "network/smb/smb_v10/message/parameters: narrow to uint16: uint16(len(_))";
-  "network/smb/smb_v10/message/parameters: narrow to uint8: uint8((len(_) * 2))";
-  "network/smb/smb_v10/message/parameters: narrow to uint8: uint8(len(_))";
-  "network/smb/smb_v10/message/parameters: narrow to uint8: uint8(len(_))";
-  "network/smb/smb_v10/types: - uint16: (_ - 1980)";
-  "network/smb/smb_v10/types: << uint16: ((_ - 1980) << 9)";
-  "network/smb/smb_v10/types: narrow to uint16: uint16(_)";
-  "network/smb/smb_v10/types: narrow to uint16: uint16(len(_))";
-  "network/smb/smb_v10/types: narrow to uint16: uint16(len(_))";
-  "network/smb/smb_v10/types: narrow to uint16: uint16(len(_))";
-  "network/smb/smb_v10/types: narrow to uint8: uint8(_)";
-  "network/smb/smb_v10/types: narrow to uint8: uint8(_)";
-  "windows/ms_dtyp/common/data_structures: * int64: ((_ % 10000000) * 100)";
-  "windows/ms_dtyp/common/data_structures: - int64: ((_ / 10000000) - 11644473600)";
-  "windows/ms_dtyp/common/data_structures: << int64: ((int64(_) & 4294967295) << 32)"
+
 ].
 
 Definition expected_wraps_C07 : list string := [
-  "crypto/pkcs7: narrow to uint8: byte(_)";
-  "network/ip: - uint8: (32 - _)";
-  "network/ip: - uint8: (32 - _)";
-  "network/ip: << uint32: (4294967295 << (32 - _))";
-  "network/ip: << uint32: (4294967295 << (32 - _))";
-  "network/ip: narrow to uint16: uint16(_)";
-  "network/ip: narrow to uint16: uint16(_)";
-  "network/llmnr: ++ uint16: _++";
-  "network/llmnr: ++ uint16: _++";
-  "network/llmnr: ++ uint16: _++";
-  "network/llmnr: ++ uint16: _++";
-  "network/llmnr: narrow to uint16: uint16(len(_))";
-  "network/llmnr: narrow to uint16: uint16(len(_))";
-  "network/llmnr: narrow to uint16: uint16(len(_))";
-  "network/llmnr: narrow to uint16: uint16(len(_))";
-  "network/llmnr: narrow to uint16: uint16(len(_))";
-  "network/llmnr: narrow to uint16: uint16(len(_))";
-  "network/llmnr: narrow to uint16: uint16(len(_))";
-  "network/llmnr: narrow to uint16: uint16(len(_))";
-  "network/llmnr: narrow to uint16: uint16(len(_))";
-  "network/llmnr: narrow to uint16: uint16(len(_))";
-  "network/llmnr: narrow to uint16: uint16(len(_))";
-  "network/netbios/nbtns: ++ uint16: _++";
-  "network/netbios/nbtns: ++ uint16: _++";
-  "network/netbios/nbtns: narrow to uint16: uint16(len(_))";
-  "network/netbios/nbtns: narrow to uint16: uint16(len(_))";
-  "network/netbios/nbtns: narrow to uint16: uint16(len(_))";
-  "network/netbios/nbtns: narrow to uint16: uint16(len(_))";
-  "network/netbios/nbtns: narrow to uint8: byte(_)";
-  "network/smb/smb_v10/message/data: narrow to uint16: uint16(len(_))";
-  "network/smb/smb_v10/message/data: narrow to uint16: uint16(len(_))";
-  "network/smb/smb_v10/spnego: narrow to uint8: byte((128 | len(_)))";
-  "network/smb/smb_v10/spnego: narrow to uint8: byte((128 | len(_)))";
-  "network/smb/smb_v10/spnego: narrow to uint8: byte(_)";
-  "network/smb/smb_v10/spnego/ntlm: << uint8: (1 << _)";
-  "network/smb/smb_v10/spnego/ntlm: << uint8: (_ << 1)";
-  "network/smb/smb_v10/spnego/ntlm: narrow to uint16: uint16(len(_))";
-  "network/smb/smb_v10/spnego/ntlm: narrow to uint16: uint16(len(_))";
-  "network/smb/smb_v10/spnego/ntlm: narrow to uint16: uint16(len(_))";
-  "network/smb/smb_v10/spnego/ntlm: narrow to uint16: uint16(len(_))";
-  "network/smb/smb_v10/spnego/ntlm: narrow to uint16: uint16(len(_))";
-  "network/smb/smb_v10/spnego/ntlm: narrow to uint16: uint16(len(_))";
-  "network/smb/smb_v10/spnego/ntlm: narrow to uint16: uint16(len(_))";
-  "network/smb/smb_v10/spnego/ntlm: narrow to uint16: uint16(len(_))";
-  "network/smb/smb_v10/spnego/ntlm: narrow to uint16: uint16(len(_))";
-  "network/smb/smb_v10/spnego/ntlm: narrow to uint16: uint16(len(_))";
-  "network/smb/smb_v10/spnego/ntlm: narrow to uint16: uint16(len(_))";
-  "network/smb/smb_v10/spnego/ntlm: narrow to uint16: uint16(len(_))";
-  "network/smb/smb_v10/spnego/ntlm: narrow to uint16: uint16(len(_))";
-  "network/smb/smb_v10/spnego/ntlm: narrow to uint16: uint16(len(_))";
-  "network/smb/smb_v10/spnego/ntlm: narrow to uint16: uint16(len(_))";
-  "network/smb/smb_v10/spnego/ntlm: narrow to uint16: uint16(len(_))";
-  "network/smb/smb_v10/spnego/ntlm: narrow to uint32: uint32(_)";
-  "network/smb/smb_v10/spnego/ntlm: narrow to uint32: uint32(_)";
-  "network/smb/smb_v10/spnego/ntlm: narrow to uint32: uint32(_)";
-  "network/smb/smb_v10/spnego/ntlm: narrow to uint32: uint32(_)";
-  "network/smb/smb_v10/spnego/ntlm: narrow to uint32: uint32(_)";
-  "network/smb/smb_v10/spnego/ntlm: narrow to uint32: uint32(_)";
-  "network/smb/smb_v10/spnego/ntlm: narrow to uint32: uint32(_)";
-  "network/smb/smb_v10/spnego/ntlm: narrow to uint32: uint32(_)";
-  "network/smb/smb_v10/types: - uint16: (_ - 1980)";
-  "network/smb/smb_v10/types: << uint16: ((_ - 1980) << 9)";
-  "network/smb/smb_v10/types: narrow to uint16: uint16(_)";
-  "network/smb/smb_v10/types: narrow to uint16: uint16(len(_))";
-  "network/smb/smb_v10/types: narrow to uint16: uint16(len(_))";
-  "network/smb/smb_v10/types: narrow to uint16: uint16(len(_))";
-  "network/smb/smb_v10/types: narrow to uint8: uint8(_)";
-  "network/smb/smb_v10/types: narrow to uint8: uint8(_)";
-  "windows/guid: << uint64: (_ << 8)";
-  "windows/guid: << uint64: (_ << 8)";
-  "windows/guid: narrow to uint16: uint16(_)";
-  "windows/guid: narrow to uint8: byte((_ >> 16))";
-  "windows/guid: narrow to uint8: byte((_ >> 8))";
-  "windows/guid: narrow to uint8: byte(_)";
-  "windows/guid: narrow to uint8: byte(_)";
-  "windows/guid: narrow to uint8: byte(_)";
-  "windows/guid: narrow to uint8: byte(_)";
-  "windows/keycredential: += uint32: _ += _";
-  "windows/keycredential: narrow to uint16: uint16(len(_))";
-  "windows/keycredential: narrow to uint32: uint32(len(_))";
-  "windows/keycredential/crypto: << uint32: (_ << 8)";
-  "windows/keycredential/crypto: narrow to uint32: uint32(_)";
-  "windows/keycredential/crypto: narrow to uint32: uint32(len(_))";
-  "windows/keycredential/crypto: narrow to uint32: uint32(len(_))";
-  "windows/keycredential/crypto: narrow to uint32: uint32(len(_))";
-  "windows/keycredential/crypto: narrow to uint32: uint32(len(_))";
-  "windows/keycredential/crypto: narrow to uint32: uint32(len(_))";
-  "windows/keycredential/key: - uint32: (_ - 19)";
-  "windows/keycredential/key: narrow to uint32: uint32(len(_))";
-  "windows/keycredential/key: narrow to uint8: byte(_)"
+
 ].
 
 Definition expected_wraps_C08 : list string := [
-  "network/smb/smb_v10/spnego: narrow to uint8: byte((128 | len(_)))";
-  "network/smb/smb_v10/spnego: narrow to uint8: byte((128 | len(_)))";
-  "network/smb/smb_v10/spnego: narrow to uint8: byte(_)";
-  "network/smb/smb_v10/spnego/ntlm: << uint8: (1 << _)";
-  "network/smb/smb_v10/spnego/ntlm: << uint8: (_ << 1)";
-  "network/smb/smb_v10/spnego/ntlm: narrow to uint16: uint16(len(_))";
-  "network/smb/smb_v10/spnego/ntlm: narrow to uint16: uint16(len(_))";
-  "network/smb/smb_v10/spnego/ntlm: narrow to uint16: uint16(len(_))";
-  "network/smb/smb_v10/spnego/ntlm: narrow to uint16: uint16(len(_))";
-  "network/smb/smb_v10/spnego/ntlm: narrow to uint16: uint16(len(_))";
-  "network/smb/smb_v10/spnego/ntlm: narrow to uint16: uint16(len(_))";
-  "network/smb/smb_v10/spnego/ntlm: narrow to uint16: uint16(len(_))";
-  "network/smb/smb_v10/spnego/ntlm: narrow to uint16: uint16(len(_))";
-  "network/smb/smb_v10/spnego/ntlm: narrow to uint16: uint16(len(_))";
-  "network/smb/smb_v10/spnego/ntlm: narrow to uint16: uint16(len(_))";
-  "network/smb/smb_v10/spnego/ntlm: narrow to uint16: uint16(len(_))";
-  "network/smb/smb_v10/spnego/ntlm: narrow to uint16: uint16(len(_))";
-  "network/smb/smb_v10/spnego/ntlm: narrow to uint16: uint16(len(_))";
-  "network/smb/smb_v10/spnego/ntlm: narrow to uint16: uint16(len(_))";
-  "network/smb/smb_v10/spnego/ntlm: narrow to uint16: uint16(len(_))";
-  "network/smb/smb_v10/spnego/ntlm: narrow to uint16: uint16(len(_))";
-  "network/smb/smb_v10/spnego/ntlm: narrow to uint32: uint32(_)";
-  "network/smb/smb_v10/spnego/ntlm: narrow to uint32: uint32(_)";
-  "network/smb/smb_v10/spnego/ntlm: narrow to uint32: uint32(_)";
-  "network/smb/smb_v10/spnego/ntlm: narrow to uint32: uint32(_)";
-  "network/smb/smb_v10/spnego/ntlm: narrow to uint32: uint32(_)";
-  "network/smb/smb_v10/spnego/ntlm: narrow to uint32: uint32(_)";
-  "network/smb/smb_v10/spnego/ntlm: narrow to uint32: uint32(_)";
-  "network/smb/smb_v10/spnego/ntlm: narrow to uint32: uint32(_)"
+
 ].
 
 Definition expected_wraps_C09 : list string := [
-  "network/llmnr: ++ uint16: _++";
-  "network/llmnr: ++ uint16: _++";
-  "network/llmnr: ++ uint16: _++";
-  "network/llmnr: ++ uint16: _++";
-  "network/llmnr: narrow to uint16: uint16(len(_))";
-  "network/llmnr: narrow to uint16: uint16(len(_))";
-  "network/llmnr: narrow to uint16: uint16(len(_))";
-  "network/llmnr: narrow to uint16: uint16(len(_))";
-  "network/llmnr: narrow to uint16: uint16(len(_))";
-  "network/llmnr: narrow to uint16: uint16(len(_))";
-  "network/llmnr: narrow to uint16: uint16(len(_))";
-  "network/llmnr: narrow to uint16: uint16(len(_))";
-  "network/llmnr: narrow to uint16: uint16(len(_))";
-  "network/llmnr: narrow to uint16: uint16(len(_))";
-  "network/llmnr: narrow to uint16: uint16(len(_))"
+
 ].
 
 Definition expected_wraps_C10 : list string := [
-  "network/netbios/nbtns: ++ uint16: _++";
-  "network/netbios/nbtns: ++ uint16: _++";
-  "network/netbios/nbtns: narrow to uint16: uint16(len(_))";
-  "network/netbios/nbtns: narrow to uint16: uint16(len(_))";
-  "network/netbios/nbtns: narrow to uint16: uint16(len(_))";
-  "network/netbios/nbtns: narrow to uint16: uint16(len(_))";
-  "network/netbios/nbtns: narrow to uint8: byte(_)"
+
 ].
 
 Definition expected_wraps_C11 : list string := [
@@ -274,52 +68,19 @@ Definition expected_wraps_C11 : list string := [
 ].
 
 Definition expected_wraps_C12 : list string := [
-  "crypto/cmac: << uint8: (_ << 1)";
-  "crypto/pkcs7: narrow to uint8: byte(_)";
-  "crypto/rc4: + uint8: (_ + _)";
-  "crypto/rc4: ++ uint8: _++";
-  "crypto/rc4: += uint8: _ += (_ + _)";
-  "crypto/rc4: += uint8: _ += _";
-  "crypto/rc4: narrow to uint8: uint8((int(_) + int(_)))";
-  "crypto/rc4: narrow to uint8: uint8(_)";
-  "crypto/rc4: narrow to uint8: uint8(_)"
+
 ].
 
 Definition expected_wraps_C13 : list string := [
-  "windows/guid: << uint64: (_ << 8)";
-  "windows/guid: << uint64: (_ << 8)";
-  "windows/guid: narrow to uint16: uint16(_)";
-  "windows/guid: narrow to uint8: byte((_ >> 16))";
-  "windows/guid: narrow to uint8: byte((_ >> 8))";
-  "windows/guid: narrow to uint8: byte(_)";
-  "windows/guid: narrow to uint8: byte(_)";
-  "windows/guid: narrow to uint8: byte(_)";
-  "windows/guid: narrow to uint8: byte(_)";
-  "windows/ms_dtyp/common/data_structures: * int64: ((_ % 10000000) * 100)";
-  "windows/ms_dtyp/common/data_structures: - int64: ((_ / 10000000) - 11644473600)";
-  "windows/ms_dtyp/common/data_structures: << int64: ((int64(_) & 4294967295) << 32)"
+
 ].
 
 Definition expected_wraps_C14 : list string := [
-  "windows/keycredential: += uint32: _ += _";
-  "windows/keycredential: narrow to uint16: uint16(len(_))";
-  "windows/keycredential: narrow to uint32: uint32(len(_))";
-  "windows/keycredential/crypto: << uint32: (_ << 8)";
-  "windows/keycredential/crypto: narrow to uint32: uint32(_)";
-  "windows/keycredential/crypto: narrow to uint32: uint32(len(_))";
-  "windows/keycredential/crypto: narrow to uint32: uint32(len(_))";
-  "windows/keycredential/crypto: narrow to uint32: uint32(len(_))";
-  "windows/keycredential/crypto: narrow to uint32: uint32(len(_))";
-  "windows/keycredential/crypto: narrow to uint32: uint32(len(_))";
-  "windows/keycredential/key: - uint32: (_ - 19)";
-  "windows/keycredential/key: narrow to uint32: uint32(len(_))";
-  "windows/keycredential/key: narrow to uint8: byte(_)"
+
 ].
 
 Definition expected_wraps_C15 : list string := [
-  "windows/ms_dtyp/common/data_structures: * int64: ((_ % 10000000) * 100)";
-  "windows/ms_dtyp/common/data_structures: - int64: ((_ / 10000000) - 11644473600)";
-  "windows/ms_dtyp/common/data_structures: << int64: ((int64(_) & 4294967295) << 32)"
+
 ].
 
 Definition expected_wraps_C16 : list string := [
@@ -327,52 +88,18 @@ Definition expected_wraps_C16 : list string := [
 ].
 
 Definition expected_wraps_C17 : list string := [
-  "network/netbios/nbtns: ++ uint16: _++";
-  "network/netbios/nbtns: ++ uint16: _++";
-  "network/netbios/nbtns: narrow to uint16: uint16(len(_))";
-  "network/netbios/nbtns: narrow to uint16: uint16(len(_))";
-  "network/netbios/nbtns: narrow to uint16: uint16(len(_))";
-  "network/netbios/nbtns: narrow to uint16: uint16(len(_))";
-  "network/netbios/nbtns: narrow to uint8: byte(_)"
+
 ].
 
 Definition expected_wraps_C18 : list string := [
-  "network/llmnr: ++ uint16: _++";
-  "network/llmnr: ++ uint16: _++";
-  "network/llmnr: ++ uint16: _++";
-  "network/llmnr: ++ uint16: _++";
-  "network/llmnr: narrow to uint16: uint16(len(_))";
-  "network/llmnr: narrow to uint16: uint16(len(_))";
-  "network/llmnr: narrow to uint16: uint16(len(_))";
-  "network/llmnr: narrow to uint16: uint16(len(_))";
-  "network/llmnr: narrow to uint16: uint16(len(_))";
-  "network/llmnr: narrow to uint16: uint16(len(_))";
-  "network/llmnr: narrow to uint16: uint16(len(_))";
-  "network/llmnr: narrow to uint16: uint16(len(_))";
-  "network/llmnr: narrow to uint16: uint16(len(_))";
-  "network/llmnr: narrow to uint16: uint16(len(_))";
-  "network/llmnr: narrow to uint16: uint16(len(_))";
-  "network/netbios/nbtns: ++ uint16: _++";
-  "network/netbios/nbtns: ++ uint16: _++";
-  "network/netbios/nbtns: narrow to uint16: uint16(len(_))";
-  "network/netbios/nbtns: narrow to uint16: uint16(len(_))";
-  "network/netbios/nbtns: narrow to uint16: uint16(len(_))";
-  "network/netbios/nbtns: narrow to uint16: uint16(len(_))";
-  "network/netbios/nbtns: narrow to uint8: byte(_)"
+
 ].
 
 Definition expected_wraps_C19 : list string := [
-  "windows/keycredential/key: - uint32: (_ - 19)";
-  "windows/keycredential/key: narrow to uint32: uint32(len(_))";
-  "windows/keycredential/key: narrow to uint8: byte(_)"
+
 ].
 
 Definition expected_wraps_C20 : list string := [
-  "network/ip: - uint8: (32 - _)";
-  "network/ip: - uint8: (32 - _)";
-  "network/ip: << uint32: (4294967295 << (32 - _))";
-  "network/ip: << uint32: (4294967295 << (32 - _))";
-  "network/ip: narrow to uint16: uint16(_)";
-  "network/ip: narrow to uint16: uint16(_)"
+
 ].
 
